@@ -112,16 +112,19 @@ fn run(args: &[String]) -> i32 {
     let mut samples = vec![];
     let mut corpus = corpus();
     let mut deep = very_deep_inputs();
+    let mut medium = medium_deep_inputs();
     let mut attempts = 0usize;
     while shards.total < n && attempts < n * 20 {
         attempts += 1;
         let (stream, src) = if !corpus.is_empty() { ("corpus".to_string(), corpus.remove(0)) }
+            else if !medium.is_empty() { shards.flush(); ("medium_deep".to_string(), medium.remove(0)) }   // K with the model parser
             else if !deep.is_empty() { shards.flush(); ("very_deep".to_string(), deep.remove(0)) }   // one shard per very deep case
             else { gen_source(&mut rng) };
         let very_deep = stream == "very_deep";
+        let medium_deep = stream == "medium_deep";
         let raw = catch(AssertUnwindSafe(|| Parser::new(&src).collect::<Vec<Event>>())).ok();
         let ntok = raw.as_ref().map(|v| v.iter().filter(|e| matches!(e, Event::Token { .. })).count()).unwrap_or(0);
-        if ntok > max_tokens && !very_deep { stats.inc("skipped_too_long"); continue; }
+        if ntok > max_tokens && !very_deep && !medium_deep { stats.inc("skipped_too_long"); continue; }
         let cst = catch(AssertUnwindSafe(|| CSTStream::from(Parser::new(&src)).collect::<Vec<Event>>())).ok();
         // token texts concatenate to the source
         let texts_ok = raw.as_ref().map(|v| {
@@ -129,9 +132,9 @@ fn run(args: &[String]) -> i32 {
             for e in v { if let Event::Token { span, .. } = e { match src.get(span.range()) { Some(t) => acc.extend_from_slice(t), None => return false } } }
             acc == src
         }).unwrap_or(false);
-        let toks = observe_tokens(&src, !very_deep);
+        let toks = observe_tokens(&src, !very_deep && !medium_deep);
         let (toks_coq, root_text_ok, have_cst) = match &toks {
-            Ok(Some((_, ok))) if very_deep => ("None".to_string(), *ok, false),
+            Ok(Some((_, ok))) if very_deep || medium_deep => ("None".to_string(), *ok, false),
             Ok(Some((os, ok))) => (format!("(Some {})", coq_list(os, |o| format!(
                 "mkTObs {} {} {} {} ({},{}) ({},{}) ({},{}) ({},{}) ({},{}) ({},{}) {} {} {} {}",
                 o.class, coq_list(&o.text, |c| c.to_string()), o.lo, o.hi,
@@ -169,14 +172,14 @@ fn run(args: &[String]) -> i32 {
             None
         });
         let own_fail = match &toks { Ok(Some((os, _))) => os.iter().enumerate().filter(|(i, o)| o.at_off != Some(*i) || o.at.iter().any(|a| *a != Some(*i))).count(), _ => 0 };
-        let case = format!("mkCase {} {} {} {} {} {} {}", src.len(), coq_events(&raw), coq_events(&cst),
+        let case = format!("mkCase {} {} {} {} {} {} {} {}", coq_bool(!very_deep), src.len(), coq_events(&raw), coq_events(&cst),
             coq_bool(texts_ok), coq_bool(root_text_ok), toks_coq, ast_coq);
         let replay = format!("{{\"index\":{},\"stream\":{},\"source_hex\":\"{}\",\"source_lossy\":{},\"tokens\":{},\"parser_panicked\":{},\"cst_stream_panicked\":{},\"ast_panicked\":{},\"gap\":{},\"texts_ok\":{},\"root_text_ok\":{},\"own_lookup_failures\":{}}}",
             shards.total, json_str(&stream), hex(&src), json_str(&String::from_utf8_lossy(&src)), ntok,
             raw.is_none(), cst.is_none(), ast.is_none(), match &gap { Some(g) => json_str(g), None => "null".into() }, texts_ok, root_text_ok, own_fail);
         if samples.len() < 3 && ntok >= 20 { samples.push(replay.clone()); }
         shards.push(case, replay);
-        if very_deep { shards.flush(); }
+        if very_deep || medium_deep { shards.flush(); }
     }
     shards.flush();
     println!("{{\"evaluations\":{},\"distinct_nontrivial\":{},\"shards\":{},\"distribution\":{},\"samples\":[{}]}}",
@@ -221,6 +224,14 @@ fn replay(src: &[u8]) -> i32 {
     }
     match ast_spans(src) { Ok(v) => for (a, b) in v { if a > b || b as usize > src.len() { bad.push(format!("AST span {a}..{b} outside the source")); } }, Err(e) => bad.push(format!("AST builder panicked: {e}")) }
     if bad.is_empty() { println!("property holds on this input"); 0 } else { for b in &bad { println!("VIOLATED: {b}"); } 1 }
+}
+
+/// a few hundred levels: still cheap enough to re-run the model parser under vm_compute
+fn medium_deep_inputs() -> Vec<Vec<u8>> {
+    vec![
+        format!("rule d {{condition: {}true}}", "not ".repeat(1000)).into_bytes(),
+        format!("rule d {{condition: {}1{} == 1 and {}$a{}}}", "-(".repeat(200), ")".repeat(200), "(".repeat(300), ")".repeat(300)).into_bytes(),
+    ]
 }
 
 /// CSTs nested deeper than 3000 levels (beyond MAX_AST_DEPTH): the parser must still be lossless
